@@ -271,8 +271,8 @@ def validate_histories(ctx, jobs, lin_module, cfg_consts, group=None, prop=None,
         si, part = args
         tf = os.path.join(ctx.dir, "hist_%s_%d.ndjson" % (nm, si))
         with open(tf, "w") as f:
-            for (_, gid, body, _) in part:
-                f.write('{"e":"reset","n":%d,"id":%d%s}\n' % (len(body), gid, ',"p":1' if gid in cand_ids else ""))
+            for li, (_, gid, body, _) in enumerate(part):      # ids local to the shard: TLC integers are 32 bit, global history ids are not
+                f.write('{"e":"reset","n":%d,"id":%d%s}\n' % (len(body), li + 1, ',"p":1' if gid in cand_ids else ""))
                 f.write("\n".join(body) + "\n")
         return run_tlc(ctx, mp, cfg_text=cfg, env={"TRACE": tf}, name="lin_%s_%d" % (nm, si), timeout=1500, workers=2 if nsh > 4 else 4, heap="3g")
 
@@ -288,7 +288,8 @@ def validate_histories(ctx, jobs, lin_module, cfg_consts, group=None, prop=None,
             log(r["out"][-3000:])
             shard_failed = True
             continue
-        acc = set(int(x) for x in re.findall(r'<<"ACC", (\d+)>>', r["out"]))
+        acc_local = set(int(x) for x in re.findall(r'<<"ACC", (\d+)>>', r["out"]))
+        acc = set(part[li - 1][1] for li in acc_local if 1 <= li <= len(part))
         ctx.validated += len(part)
         nstates += r["distinct"]
         rej += [rec for rec in part if rec[1] not in acc and rec[1] not in cand_ids]
@@ -324,10 +325,10 @@ def validate_histories(ctx, jobs, lin_module, cfg_consts, group=None, prop=None,
         j, gid, body, sch = rec
         tf1 = os.path.join(ctx.dir, "rej_%s_%d.ndjson" % (nm, gid))
         with open(tf1, "w") as f:
-            f.write('{"e":"reset","n":%d,"id":%d}\n' % (len(body), gid))
+            f.write('{"e":"reset","n":%d,"id":1}\n' % len(body))
             f.write("\n".join(body) + "\n")
         r1 = run_tlc(ctx, mp, cfg_text=cfg, env={"TRACE": tf1}, name="rej_" + nm, workers=1, timeout=600)
-        if re.search(r'<<"ACC", %d>>' % gid, r1["out"]):
+        if re.search(r'<<"ACC", 1>>', r1["out"]):
             ctx.machinery_errors.append("history %d rejected in batch but accepted alone" % gid)
             continue
         rejected.append(rec)
